@@ -202,7 +202,8 @@ Inductive case :=
 | KFence (info : bytes) (lines : list bytes) (startf endf : bytes)
 | KLinkTail (dest title obs : bytes)
 | KEscText (s : list (N * bool)) (obs : list N)
-| KReflowKernel (maxw : nat) (words : list bytes) (obs : list bytes).
+| KReflowKernel (maxw : nat) (words : list bytes) (obs : list bytes)
+| KReflowObs (maxw : nat) (obs : list bytes).     (* emitted lines, after escaping; ASCII only *)
 
 Definition fits (w : nat) (ls : list (nat * bool)) : bool :=
   forallb (fun p => Nat.leb (fst p) w || negb (snd p)) ls.
@@ -216,6 +217,11 @@ Definition tail_roundtrip (dest title obs : bytes) : bool :=
 Definition esc_text_ok (s : list (N * bool)) (obs : list N) : bool :=
   list_eqb N.eqb (unescape_bs false obs) (nbsp_expand (map fst s))
   && match active_metas false obs with [] => true | _ => false end.
+
+(* every emitted line, as written (a leading backslash included), fits the
+   width unless it has no break opportunity left *)
+Definition lines_fit (maxw : nat) (obs : list bytes) : bool :=
+  forallb (fun l => Nat.leb (length l) maxw || negb (existsb (fun c => c =? 32) l)) obs.
 
 Definition judge1 (c : case) : N :=
   match c with
@@ -233,6 +239,7 @@ Definition judge1 (c : case) : N :=
     code (bytes_eqb (join_sp obs) (join_sp words)
           && forallb (fun l => Nat.leb (length l) maxw || negb (existsb (fun c => c =? 32) l)) obs)
          (list_eqb bytes_eqb (map join_sp (reflow maxw [] 0 words)) obs)
+  | KReflowObs maxw obs => code (lines_fit maxw obs) true
   end.
 
 Definition judge := judge_with judge1.
